@@ -183,7 +183,7 @@ func (a *genericAuthenticator) getSubjectInformation(ctx heimdall.Context, authD
 
 	if a.ttl > 0 {
 		cacheKey = a.calculateCacheKey(authData)
-		if entry, err := cch.Get(ctx.AppContext(), cacheKey); err == nil {
+		if entry, err := cch.Get(ctx.AppContext(), cacheKey); err == nil && a.sessionIsValid(entry) {
 			logger.Debug().Msg("Reusing subject information from cache")
 
 			return entry, nil
@@ -215,6 +215,21 @@ func (a *genericAuthenticator) getSubjectInformation(ctx heimdall.Context, authD
 	}
 
 	return payload, nil
+}
+
+// sessionIsValid reports whether the (cached) subject information still satisfies the session
+// lifespan settings of this authenticator.
+func (a *genericAuthenticator) sessionIsValid(payload []byte) bool {
+	if a.sessionLifespanConf == nil {
+		return true
+	}
+
+	session, err := a.sessionLifespanConf.CreateSessionLifespan(payload)
+	if err != nil {
+		return false
+	}
+
+	return session == nil || session.Assert() == nil
 }
 
 func (a *genericAuthenticator) fetchSubjectInformation(ctx heimdall.Context, authData string) ([]byte, error) {
@@ -352,6 +367,12 @@ func (a *genericAuthenticator) calculateCacheKey(reference string) string {
 	digest.Write(stringx.ToBytes(a.id))
 	digest.Write([]byte{0})
 	digest.Write(a.e.Hash())
+
+	if a.payload != nil {
+		digest.Write(a.payload.Hash())
+	}
+
+	digest.Write([]byte{0})
 	digest.Write(stringx.ToBytes(reference))
 
 	return hex.EncodeToString(digest.Sum(nil))
